@@ -150,3 +150,20 @@ func ReturnText(l Loc) string {
 	}
 	return strings.Join(s, ", ")
 }
+
+// UnderAnyArm reports whether l is control-dependent (either arm, single-predecessor arm that
+// dominates l) on a branch whose condition text contains substr.
+func (f *Fn) UnderAnyArm(l Loc, substr string) bool {
+	for _, b := range f.live {
+		c := condOf(b)
+		if c == nil || !strings.Contains(types.ExprString(c), substr) {
+			continue
+		}
+		for _, arm := range b.Succs {
+			if len(f.predsOf(arm)) == 1 && f.BlockDom(arm, l.Blk) {
+				return true
+			}
+		}
+	}
+	return false
+}
